@@ -221,7 +221,7 @@ def _basic(cred):
 
 
 class Path:
-    def __init__(self, X, path, spec):
+    def __init__(self, X, path, spec, pa=None):
         self.X, self.path, self.spec = X, path, spec
         self.proxy_hdr = path in ("regular", "connect", "upstream")
         mode = {"regular": "regular", "connect": "regular", "upstream": "upstream:http://upstream.test:3128", "reverse": "reverse:http://origin.test:80", "socks5": "socks5"}[path]
@@ -236,8 +236,10 @@ class Path:
             top = layers.HttpLayer(ctx, HTTPMode.transparent)
         else:
             top = modes.Socks5Proxy(ctx)
-        self.pa = proxyauth.ProxyAuth()
-        self.pa.configure({"proxyauth"})
+        if pa is None:
+            pa = proxyauth.ProxyAuth()
+            pa.configure({"proxyauth"})
+        self.pa = pa
         self.d = d = sansio.Driver(top, ctx)
         self.hooked = []
 
@@ -286,15 +288,18 @@ class Path:
         return any(c is self.ctx.client for c, h in self.d.closed)
 
 
-def _request(path, i, cred, proxy_hdr, inner=False):
+def _request(path, i, cred, proxy_hdr, inner=False, body=False):
     marker = f"/req{i}"
+    method = "POST" if body else "GET"
     if inner or path == "reverse":
-        line = f"GET {marker} HTTP/1.1\r\nHost: origin.test\r\n"
+        line = f"{method} {marker} HTTP/1.1\r\nHost: origin.test\r\n"
     else:
-        line = f"GET http://origin.test{marker} HTTP/1.1\r\nHost: origin.test\r\n"
+        line = f"{method} http://origin.test{marker} HTTP/1.1\r\nHost: origin.test\r\n"
     if cred is not None:
         line += f"{'Proxy-Authorization' if proxy_hdr else 'Authorization'}: {_basic(cred)}\r\n"
-    return (line + "X-Marker: m%d\r\n\r\n" % i).encode(), marker.encode()
+    if body:
+        line += "Content-Length: 6\r\n"
+    return (line + "X-Marker: m%d\r\n\r\n" % i).encode(), (b"secret" if body else b""), marker.encode()
 
 
 def _status(data):
@@ -342,12 +347,13 @@ def h_paths(X, nreq, with_colon):
                 break
             if P.closed():
                 break
+            body = b""
             if tunnel:
                 cn, cred = "none", None  # authenticated tunnel: inner requests carry no credentials
-                data, marker = _request(path, i, None, False, inner=True)
+                data, body, marker = _request(path, i, None, False, inner=True, body=X.boolean("body"))
                 expect_ok = True
                 kind = "inner"
-            elif path == "connect":
+            elif path == "connect" and X.boolean("send_connect"):
                 cn = X.choose("cred", menu)
                 cred = CREDS[cn]
                 data = b"CONNECT origin.test:80 HTTP/1.1\r\nHost: origin.test:80\r\n" + (f"Proxy-Authorization: {_basic(cred)}\r\n".encode() if cred else b"") + b"\r\n"
@@ -357,13 +363,17 @@ def h_paths(X, nreq, with_colon):
             else:
                 cn = X.choose("cred", menu)
                 cred = CREDS[cn]
-                data, marker = _request(path, i, cred, P.proxy_hdr)
+                data, body, marker = _request(path, i, cred, P.proxy_hdr, body=X.boolean("body"))
                 expect_ok = _accepts(spec, cred)
                 kind = "request"
             key = f"C20/path/{path}/{kind}/{cn}"
+            refused_key = f"C20/path/{path}/password-with-colon" if cn == "colon" else key + "/valid-refused"
             before_act = P.server_activity()
             before = P.snapshot()
             d.data(ctx.client, data)
+            if body:
+                d.data(ctx.client, body)  # the body arrives in a segment of its own
+                X.reach("with-body")
             new_srv = b"".join(bytes(v[before.get(c, 0):]) for c, v in d.sent.items() if c is not ctx.client)
             if not expect_ok:
                 X.reach("refused")
@@ -376,18 +386,28 @@ def h_paths(X, nreq, with_colon):
             if kind == "connect":
                 out = P.client_new()
                 X.reach("connect-accepted")
-                X.check(_status(out) == 200, key + "/valid-refused", f"validator accepts {cred} but CONNECT answered {out[:100]!r}")
+                X.check(_status(out) == 200, refused_key, f"validator accepts {cred} but CONNECT answered {out[:100]!r}")
                 X.check(b"authorization" not in new_srv.lower(), key + "/credentials-forwarded", f"{new_srv!r}")
                 tunnel = True
                 continue
             X.reach("forwarded")
-            X.check(marker in new_srv, key + "/valid-refused", f"validator accepts {cred}, request not forwarded; client got {P.client_new()[:100]!r}")
+            X.check(marker in new_srv, refused_key, f"validator accepts {cred}, request not forwarded; client got {P.client_new()[:100]!r}")
             head = new_srv.split(b"\r\n\r\n")[0].lower()
             X.check(b"authorization" not in head, key + "/credentials-forwarded", f"forwarded head still carries credentials: {new_srv!r}")
-            X.check(b"x-marker: m%d" % i in head, key + "/head-damaged", f"{new_srv!r}")
+            X.check(b"x-marker: m%d" % i in head and new_srv.endswith(body), key + "/head-damaged", f"{new_srv!r}")
             P.answer_servers(before)
             out = P.client_new()
             X.check(_status(out) == 200 and out.endswith(b"ok"), key + "/response-lost", f"client got {out!r}")
+        if tunnel:
+            # authentication is per client connection: another client, same addon instance, no credentials
+            X.reach("second-connection")
+            P2 = Path(X, "regular", spec, pa=P.pa)
+            before2 = P2.server_activity()
+            data, _, _ = _request("regular", 9, None, True)
+            P2.d.data(P2.ctx.client, data)
+            out = P2.client_new()
+            X.check(P2.server_activity() == before2 and _status(out) == 407, f"C20/path/{path}/other-connection-authenticated",
+                    f"a second, unauthenticated client connection was served after the first one authenticated: {out[:80]!r}")
         X.reach("end")
 
 
@@ -397,7 +417,7 @@ def obligations(tier):
     return [
         Symx("kernel", lambda X: h_kernel(X, ml), bounds=f"user, password: all strings of length 0..{ml} over {ALPHABET} x validator outcome x 5 proxy modes; {len(MALFORMED)} malformed header shapes",
              encoded=ENCODED[:9], must_reach=["http-path", "accepted", "refused", "malformed"], parallel_depth=3),
-        Symx("paths", lambda X: h_paths(X, 3, True), bounds="paths {regular absolute-form, CONNECT + inner requests, reverse, upstream, SOCKS5 + inner requests} x proxyauth {user:pass, any} x "
-             "sequences of <= 3 requests on one connection x credentials {none, wrong, valid, valid with ':' in the password}", encoded=ENCODED,
-             must_reach=["end", "refused", "forwarded", "connect-accepted", "socks5-accepted", "socks5-refused"], parallel_depth=3),
+        Symx("paths", lambda X: h_paths(X, 3 if q else 4, True), bounds="paths {regular absolute-form, CONNECT + inner requests, reverse, upstream, SOCKS5 + inner requests} x proxyauth {user:pass, any} x "
+             f"sequences of <= {3 if q else 4} requests (GET / POST with body in its own segment; on the CONNECT path CONNECT or absolute-form) on one connection x credentials {{none, wrong, valid, valid with ':' in the password}}; then a second unauthenticated connection", encoded=ENCODED,
+             must_reach=["end", "refused", "forwarded", "connect-accepted", "socks5-accepted", "socks5-refused", "with-body", "second-connection"], parallel_depth=3),
     ]
